@@ -243,8 +243,12 @@ def main(argv=None):
             continue
         seen.add(key)
         os.makedirs(rdir, exist_ok=True)
-        fn = os.path.join(rdir, '%s__%s.json' % (
-            r['task'].replace('/', '_').replace(' ', '_'), o['label'].replace('/', '_').replace(' ', '_')))
+        import hashlib, re
+        stem = '%s__%s' % (r['task'], o['label'])
+        stem = re.sub(r'[^A-Za-z0-9_.,()=<>+-]', '_', stem)
+        if len(stem) > 140:
+            stem = stem[:120] + '_' + hashlib.sha1(stem.encode()).hexdigest()[:12]
+        fn = os.path.join(rdir, stem + '.json')
         res = native_replay(prop, r['task'], r['case'], o.get('model') or {})
         confirmed = bool(res and not res.get('error') and res.get('failed'))
         from pyvc.api import enc_case
